@@ -1227,18 +1227,19 @@ class MeshRegion:
                 )
 
             # calculate curl on x-y grid
+            # Note: Bpxy carries the sign of the poloidal field and DDX() is the derivative
+            # with respect to x=psi (dx is negative where psi decreases outwards), so no
+            # further factor of bpsign belongs here - it would make the x and y components
+            # the negative of the 'curl(b/B)' version when psi decreases outwards.
             self.curl_bOverB_x = (
                 -2.0
-                * self.bpsign
                 * self.Bpxy
                 * self.Btxy
                 * self.Rxy
                 / (self.hy * self.Bxy**3)
                 * self.DDY("#Bxy")
             )
-            self.curl_bOverB_y = (
-                -self.bpsign * self.Bpxy / self.hy * self.DDX("#Btxy*#Rxy/#Bxy**2")
-            )
+            self.curl_bOverB_y = -self.Bpxy / self.hy * self.DDX("#Btxy*#Rxy/#Bxy**2")
             self.curl_bOverB_z = (
                 self.Bpxy**3 / (self.hy * self.Bxy**2) * self.DDX("#hy/#Bpxy")
                 - self.Btxy * self.Rxy / self.Bxy**2 * self.DDX("#Btxy/#Rxy")
